@@ -202,8 +202,27 @@ func cmdList(args []string) {
 // ---------------------------------------------------------------------------
 // item: run one work item in this process
 
+// onlyItems: development aid. MC_ONLY restricts a run to the items whose name contains one of the comma-separated
+// substrings (workers apply the same filter, so item indices agree); the registered commands never set it.
+func onlyItems(items []scen.Item) []scen.Item {
+	only := os.Getenv("MC_ONLY")
+	if only == "" {
+		return items
+	}
+	var kept []scen.Item
+	for _, it := range items {
+		for _, sub := range strings.Split(only, ",") {
+			if strings.Contains(it.Name, sub) {
+				kept = append(kept, it)
+				break
+			}
+		}
+	}
+	return kept
+}
+
 func runItem(prop, tier string, idx int, deadline time.Time, maxExecs int) *ItemResult {
-	items := family(prop).Items(tier)
+	items := onlyItems(family(prop).Items(tier))
 	if idx < 0 || idx >= len(items) {
 		return &ItemResult{Index: idx, Err: "item index out of range"}
 	}
@@ -354,6 +373,15 @@ func cmdCheck(args []string) {
 	seed, _ := strconv.Atoi(os.Getenv("VERIF_SEED"))
 	fam := family(prop)
 	items := fam.Items(*tier)
+	if os.Getenv("MC_ONLY") != "" {
+		all := len(items)
+		items = onlyItems(items)
+		fmt.Printf("MC_ONLY=%q: %d of %d items\n", os.Getenv("MC_ONLY"), len(items), all)
+		if len(items) == 0 {
+			fmt.Println("nothing to run")
+			os.Exit(0)
+		}
+	}
 	start := time.Now()
 	if *budget == 0 {
 		*budget = 240
